@@ -136,6 +136,54 @@ def run(chk, tier, seed):
                           {"kind": "perm", "template": t["id"], "source": t["src"], "perms": j["perms"], "sites": t["sites"],
                            "perm_ops": j.get("perm_ops"), "expected": c, "observed": {"outcome": oc, "touched": got_touch, "stdout": o.get("stdout")}})
     vf.validate_job_traces(chk, [j for j in jobs if j["id"].startswith("j")], res, "c11", "permission trace")
+    # one compilation, several runtimes (M6): the same compiled program instantiated under an allowing, then a
+    # refusing, then again an allowing configuration - each runtime decides by its own permission table
+    percase = {}
+    for c in cases:
+        percase.setdefault(c["id"], []).append(c)
+    mj, mexp = [], {}
+    for tid_, cs in sorted(percase.items()):
+        ok = [c for c in cs if c["outcome"] == "none"]
+        bad = [c for c in cs if c["outcome"] != "none"]
+        if not ok or not bad:
+            continue
+        seqs = [[ok[0], bad[0], ok[-1]], [bad[-1], ok[0], bad[0]]]
+        for k, seq in enumerate(seqs):
+            t = byid[tid_]
+            jid = "m%d" % len(mj)
+            mj.append({"id": jid, "src": t["src"] + "\n", "perms": xv_perms(seq[0]["perms"]), "observe": [],
+                       "then": [{"perms": xv_perms(c["perms"]), "observe": []} for c in seq[1:]]})
+            mexp[jid] = (seq, t)
+    mres = vf.run_jobs(mj, "c11-rounds")
+    chk.count(len(mj))
+    for j in mj:
+        seq, t = mexp[j["id"]]
+        o = mres[j["id"]]
+        if "crash" in o or "timeout" in o or not o.get("compile", {}).get("ok"):
+            chk.violation("%s over several runtimes: %s" % (t["id"], vf.job_outcome(o)), {"kind": "perm-rounds", "source": t["src"], "observed": vf.job_outcome(o)})
+            continue
+        rounds = [o] + o.get("rounds", [])
+        chk.nontrivial([t["id"], "rounds", [c["perms"] for c in seq]])
+        for k, (c, r) in enumerate(zip(seq, rounds)):
+            inst = r.get("inst", {})
+            got = "ok" if inst.get("ok") else ("inst_" + vf.norm_outcome(inst["violation"]) if "violation" in inst else "inst_panic")
+            want = "ok" if c["outcome"] == "none" else "inst_" + c["outcome"]
+            eff = r.get("effects", {})
+            touch = {"write": eff.get("write", 0), "clock": eff.get("clock", 0), "rng": eff.get("rng", 0) + eff.get("rng_new", 0)}
+            prob = None
+            if got != want:
+                prob = ("outcome", want, got)
+            else:
+                for kk in ("write", "clock", "rng"):
+                    if (c["touched"].get(kk, 0) > 0) != (touch[kk] > 0):
+                        prob = ("touches of " + kk, c["touched"].get(kk, 0), touch[kk])
+            if prob:
+                chk.violation("%s, runtime %d of %d built from one compilation (permissions %s, earlier runtimes %s): %s expected %s, observed %s" %
+                              (t["id"], k + 1, len(seq), xv_perms(c["perms"]), [xv_perms(x["perms"]) for x in seq[:k]], prob[0], prob[1], prob[2]),
+                              {"kind": "perm-rounds", "template": t["id"], "source": t["src"], "rounds": [xv_perms(x["perms"]) for x in seq], "round": k,
+                               "expected": c, "observed": {"outcome": got, "touched": touch}}, finding_key="rounds:%s" % t["id"])
+                break
+    chk.part("several_runtimes", programs=len(mj))
     # the shipped scripts, under their own permission configuration
     scr = [s for s in corpus.scripts() if not s["cfg"].get("expected_compilation_error")]
     if tier == "quick":
@@ -161,6 +209,20 @@ def replay(chk, path):
     rp = json.load(open(path))
     if rp.get("kind") == "trace":
         return vf.replay_trace_job(chk, rp)
+    if rp.get("kind") == "perm-rounds":
+        rs = rp["rounds"]
+        o = vf.run_jobs([{"id": "r", "src": rp["source"] + "\n", "perms": rs[0], "observe": [], "then": [{"perms": x, "observe": []} for x in rs[1:]]}], "replay")["r"]
+        r = ([o] + o.get("rounds", []))[rp["round"]]
+        inst = r.get("inst", {})
+        got = "ok" if inst.get("ok") else ("inst_" + vf.norm_outcome(inst["violation"]) if "violation" in inst else "inst_panic")
+        want = "ok" if rp["expected"]["outcome"] == "none" else "inst_" + rp["expected"]["outcome"]
+        chk.count(1)
+        chk.nontrivial("replay")
+        chk.nontrivial(rp["source"])
+        chk.sample({"source": rp["source"], "outcome": got})
+        if got != want or (r.get("effects", {}).get("write", 0) > 0) != (rp["expected"]["touched"].get("write", 0) > 0):
+            chk.violation("still deviates", rp)
+        return chk.finish()
     j = {"id": "r", "src": rp["source"] + "\n", "perms": rp["perms"], "trace": True}
     if rp.get("perm_ops"):
         j["perm_ops"] = rp["perm_ops"]
